@@ -179,6 +179,12 @@ def getitem(eng, base, idx):
     if isinstance(base, NArr):
         from . import narr
 
+        if isinstance(idx, SArr) and base.ndim == 1 and not hasattr(idx, "__pyvc_getitem__"):  # (was: unsupported "index SArr")
+            from . import stock_np
+
+            b = stock_np._as_sarr(base)
+            if b is not None:
+                return getitem(eng, b, idx)
         return narr.getitem(eng, base, idx)
     if hasattr(base, "__pyvc_getitem__"):
         return base.__pyvc_getitem__(eng, idx)
